@@ -337,7 +337,16 @@ func (ww *conversionVisitor) visitEnumNode(node *sourcewalk.EnumNode) {
 		}
 
 		eb.desc.Options = &descriptorpb.EnumOptions{}
+		ww.file.ensureImport(j5ExtImport)
 		proto.SetExtension(eb.desc.Options, ext_j5pb.E_Enum, ext)
+	}
+
+	for _, option := range node.Schema.Options {
+		if len(option.Info) > 0 {
+			// addValue sets (j5.ext.v1.enum_value) for this option
+			ww.file.ensureImport(j5ExtImport)
+			break
+		}
 	}
 
 	optionsToSet := node.Schema.Options
